@@ -51,7 +51,7 @@ const (
 	maxKnobs   = 16
 	maxSites   = 1 << 16
 	maxPairs   = 1 << 12
-	watchdogMs = 45000
+	watchdogMs = 30000
 )
 
 type task struct {
@@ -204,8 +204,12 @@ func Knob(name string, def int) int {
 	return def
 }
 
+// InfraExit is the exit status for trouble in the machinery itself (Go's own
+// fatal errors and unrecovered panics exit with 2, so that value is not used).
+const InfraExit = 96
+
 func infra(msg string) {
-	infraExit(msg, 2)
+	infraExit(msg, InfraExit)
 }
 
 // WatchdogExit is the exit status of a worker whose running task reached no
